@@ -966,7 +966,7 @@ def worker_run(task: Dict[str, Any]) -> Dict[str, Any]:
 
 TIERS = {
     # runs, determinism re-run sample, wall budget (s) for the main sweep
-    "quick": {"runs": 1000, "det": 64, "budget": 120.0, "extras": 200, "sweep": 160},
+    "quick": {"runs": 800, "det": 48, "budget": 90.0, "extras": 200, "sweep": 160},
     "thorough": {"runs": 40000, "det": 600, "budget": 2400.0, "extras": 400, "sweep": 10**9},
 }
 
